@@ -305,11 +305,11 @@ func refPlace(rules []configs.PlacementRule, app harness.Op, s *refState) (strin
 		for s.queues[anc] == nil {
 			anc = anc[:strings.LastIndex(anc, ".")]
 		}
+		if s.queues[anc].leaf {
+			continue // nothing can be created below a leaf: next rule
+		}
 		if !s.submitAccess(anc, app.User, app.Groups) {
 			continue
-		}
-		if s.queues[anc].leaf {
-			return "unknown", "" // creation below a leaf fails later: error path
 		}
 		return "accept", q
 	}
